@@ -44,6 +44,26 @@ def _is_copy_of(t, src) -> bool:
     return False
 
 
+def _keeps(t, src):
+    """Does the table term `t` hold every entry of `src`?  True / False / None (a shape not read here)."""
+    if _is_copy_of(t, src):
+        return True
+    if t[0] == "ite":
+        a, b = _keeps(t[2], src), _keeps(t[3], src)
+        return None if a is None or b is None else (a and b)
+    if t[0] == "dict":
+        stars = [v for k, v in t[1] if k == ("const", "**")]
+        if not stars:
+            return False  # a literal with individually listed entries
+        ks = [_keeps(v, src) for v in stars]
+        return True if any(k is True for k in ks) else (None if any(k is None for k in ks) else False)
+    if t[0] == "comp" and t[1] == "dict":
+        return False if not any(x == src for x in T.walk(t[3][0][1])) or t[4] else None
+    if t[0] == "call" and T.call_name(t) in ("dict", "collections.OrderedDict") and not t[2] and not t[3]:
+        return False
+    return None
+
+
 def _episode(ev, r):
     """Events of one evaluation of the per-episode generator on symbolic (rng_eps, _graphs, _ts_max)."""
     n0 = len(ev.events)
@@ -180,6 +200,14 @@ def run(chk: Check, model):
             # whether or not `nodes` mentions its node
             chk.add("C12.augment", f"{what}: every existing entry is kept", _is_copy_of(ins[0][2], S(existing)), f"the {what} table starts as {T.show(ins[0][2])[:200]}, expected a full copy "
                     f"of {existing} (entries of recorded nodes that are not in `nodes` must survive augmentation)", chk.loc(f_ep, e.node))
+        # ... and the table that is handed back (the one the generated entries were stored into) starts as that copy too: a table
+        # that starts empty and is filled per configured node / connection forgets the recorded entries nobody configured
+        rets = [x for x in sub if x.kind == "return" and x.func == f_ep.qualname and x.term is not None and x.term[0] == "obj" and x.term[1] == "Graph"]
+        if ok and len(rets) == 1:
+            kept = _keeps(dict(rets[0].term[2]).get(what, T.NONE), S(existing))
+            if kept is not None:
+                chk.add("C12.augment", f"{what}: the returned table starts from every existing entry", kept, f"the episode returns {what} = "
+                        f"{T.show(dict(rets[0].term[2]).get(what, T.NONE))[:160]}, expected a table that starts as a full copy of {existing}", chk.loc(f_ep, rets[0].node))
         if ok:
             g = e.guard
             for rz in raises:
